@@ -45,6 +45,17 @@ def check_linear(case, ctx):
     ctx.close('k0.symmetry', K0, K0.T, 1e-13, bucket=name + '.k0.symmetry')
     KG = dense(cc.kG0)
     ctx.close('kG0.symmetry', KG, KG.T, 1e-13, bucket=name + '.kG0.symmetry', scale=np.max(np.abs(KG)) or 1.)
+    # the partitioned matrices are the full ones without the rows / columns of the prescribed amplitudes
+    exc = sorted(set(int(i) for i in cc.excluded_dofs))
+    want_exc = [i for i, on in ((0, case.get('pdC', False)), (1, case.get('pdT', True)), (2, True)) if on]
+    ctx.label('prescribed:' + ''.join(str(i) for i in exc))
+    ctx.ok(exc == want_exc, name + '.excluded_dofs', 'excluded_dofs %r for pdC=%r pdT=%r' % (exc, case.get('pdC', False), case.get('pdT', True)))
+    keep = np.setdiff1d(np.arange(K0.shape[0]), exc)
+    ctx.ok(Kuu.shape == (keep.size, keep.size), name + '.k0uu.shape', 'k0uu %r for %d free amplitudes' % (Kuu.shape, keep.size))
+    ctx.close('k0uu == k0[free, free]', Kuu, K0[np.ix_(keep, keep)], 0., bucket=name + '.k0uu.partition')
+    num0 = cc.num0
+    ctx.close('k0uk == k0[free, :num0]', np.asarray(cc.k0uk), K0[np.ix_(keep, np.arange(num0))], 0., bucket=name + '.k0uk.partition',
+              scale=np.max(np.abs(K0)))
     # positive semi-definite
     ev = np.linalg.eigvalsh((Kuu + Kuu.T) / 2.)
     ctx.metric('psd.neg/max[%s]' % model, max(0., -ev[0] / ev[-1]))
@@ -235,19 +246,55 @@ def check_edges(case, ctx):
     Z = edges({k: 0. for k in ks})
     ctx.ok(not np.any(Z), name + '.zero', 'non-zero matrix for zero edge stiffnesses')
     tot = np.zeros_like(E)
+    ones = {}
     for k in ks:
         one = edges({kk: (vals[kk] if kk == k else 0.) for kk in ks})
         two = edges({kk: (2. * vals[kk] if kk == k else 0.) for kk in ks})
         ctx.close('linear[%s]' % k, two, 2. * one, 1e-12, bucket=name + '.linearity', scale=np.max(np.abs(two)) or 1.)
         tot += one
+        ones[k] = one
     ctx.close('superposition', E, tot, 1e-12, bucket=name + '.superposition', scale=np.max(np.abs(E)) or 1.)
+    # which field at which edge each stiffness restrains: k * r_edge * int_0^2pi S^T S dtheta with S the package's own field operator
+    # (u, v, w, phix, phit as returned by the model's fuvw) at that edge, on the non-prescribed amplitudes
+    md = modelDB.db[model]
+    if md['num0'] != 3:
+        ctx.label('edge-energy:not-compared(single-harmonic model)')
+        return
+    cc = make_cc(dict(case, **vals))
+    with package(name):
+        cc._rebuild()
+    n = cc.get_size()
+    nt = 4 * (cc.n2 + 2) + 1          # equispaced rule, exact for the trigonometric products of order <= 2 n2
+    th = np.linspace(-np.pi, np.pi, nt, endpoint=False)
+    fuvw = md['commons'].fuvw
+    fr = np.arange(3, n)
+    for edge, x, r in (('Bot', cc.L, cc.r1), ('Top', 0., cc.r2)):
+        S = np.zeros((5, nt, n))
+        for j in range(3, n):
+            e = np.zeros(n)
+            e[j] = 1.
+            with package(name + '.fuvw'):
+                with quiet():
+                    res = fuvw(e, cc.m1, cc.m2, cc.n2, cc.alpharad, cc.r2, cc.L, cc.tLArad, np.full(nt, x), th.copy(), 1)
+            for fi in range(5):
+                S[fi, :, j] = np.asarray(res[fi])
+        smax = np.max(np.abs(S)) ** 2
+        for fi, kn in enumerate(('ku', 'kv', 'kw', 'kphix', 'kphit')):
+            if vals[kn + edge] == 0.:
+                continue
+            Eref = vals[kn + edge] * r * (2 * np.pi / nt) * S[fi].T.dot(S[fi])
+            # fields that the trial functions make vanish at the edge come out as rounding (sin(i pi))^2: judged against a unit field
+            ctx.close('edge-energy[%s]' % (kn + edge), ones[kn + edge][np.ix_(fr, fr)], Eref[np.ix_(fr, fr)], 1e-10,
+                      bucket=name + '.edge-energy', scale=vals[kn + edge] * r * 2 * np.pi * smax)
+    ctx.label('edge-energy:compared')
 
 
 def _loads(draw, case):
     case['Fc'] = round(draw(gen.fl(-1e4, 1e4)), 1)
     case['P'] = round(draw(gen.fl(-1., 1.)), 3)
     case['T'] = round(draw(gen.fl(-1e5, 1e5)), 1)
-    case['pdT'] = True
+    case['pdT'] = draw(st.booleans())
+    case['pdC'] = draw(st.booleans())
     case['lfac'] = [round(draw(gen.fl(-2., 2.)), 2) for _ in range(3)]
 
 
